@@ -81,9 +81,30 @@ def main(argv):
             if (l0, e0) != (l1, e1):
                 failing.append(("probe@" + pl, src, cfg, f"fail:effects differ (in-place operators {inplace}): original {l0} converted {l1} {e1 or ''}", conv))
                 break
+    # straight-line module programs inside the fragment of C01.module_straightline_semantics (M-EVAL): the theorem's
+    # hypothesis (simpleModuleB, proved sound) is evaluated by the model on each; behaviour is compared as for every program
+    import straight, leandrv
+    sl = straight.programs(ck.rng, 150 if ck.tier == "quick" else 3000)
+    sl_items = [(src, gen_prog.CONFIGS[(i + ck.seed) % 8]) for i, src in enumerate(sl)]
+    sl_simple = [None] * len(sl_items)
+    if b["driver_ok"]:
+        sl_simple = [r.get("simple") for r in leandrv.run_batch(lower_common.model_requests([(s_, (c_[1], c_[2])) for s_, c_ in sl_items]))]
+    covered = 0
+    for (src, cfg), simple in zip(sl_items, sl_simple):
+        v, text = gen_prog.behaviour_check(ol, src, cfg)
+        ck.case(f"{cfg}|{src}", nontrivial=not v.startswith("skip"))
+        ck.count("straight_line:" + v.split(":")[0])
+        if simple and not v.startswith("skip"):
+            covered += 1
+        if v.startswith("fail"):
+            failing.append(("straight-line" + (" (inside the hypothesis of C01.module_straightline_semantics)" if simple else ""), src, cfg, v, text))
+    ck.count("theorem_module_straightline_covers", covered)
+    if b["driver_ok"] and covered == 0:
+        ck.broken.append("coverage: no generated straight-line program satisfies the hypothesis of C01.module_straightline_semantics")
     k_bad = []
     if b["driver_ok"]:
-        pairs = [(src, (cfgs[0][1], cfgs[0][2])) for _, src, cfgs in items] + [(src, (cfgs[-1][1], cfgs[-1][2])) for _, src, cfgs in items[::3]]
+        pairs = [(s_, (c_[1], c_[2])) for s_, c_ in sl_items]
+        pairs += [(src, (cfgs[0][1], cfgs[0][2])) for _, src, cfgs in items] + [(src, (cfgs[-1][1], cfgs[-1][2])) for _, src, cfgs in items[::3]]
         # every statement form x placement of the catalogue (structure only: the emitted tree is the model's)
         fps = [s_ for n_, s_ in forms.programs() if forms.compilable(s_)]
         step = 2 if ck.tier == "quick" else 1
@@ -125,7 +146,8 @@ def main(argv):
         rule="seeded structured programs of the supported fragment (feature mix counted under stats.feature:*), run to completion without exception, "
              "x 3 or 8 (quick) / 8 (thorough) option combinations, plus curated edge programs x 8; observable = stdout + user globals of exec(source) "
              "vs eval(converted) in fresh namespaces; distinct by (config, source); non-trivial = the original ran to completion; plus random simple statements "
-             "with effectful probes at 10 kinds of position (ordered effect log + names bound), and the tree comparison K over the catalogue of statement forms x placements",
+             "with effectful probes at 10 kinds of position (ordered effect log + names bound), straight-line module programs inside the fragment of the M-EVAL theorem "
+             "(its hypothesis evaluated by the model on each), and the tree comparison K over the catalogue of statement forms x placements",
         extra={"R_failures": len(failing), "K_disagreements": len(k_bad), "programs": len(items)},
         assumptions=["the fragment generated avoids the shapes of the open known findings (known_findings.jsonl), which are replayed separately"])
 
